@@ -20,7 +20,12 @@ inductive UV where
   | int (i : Int)
   | ints (l : List Int)
   | obj (a b : Int)
+  | nil                                    -- a nil interface value (a Transform may return it)
   deriving Repr, DecidableEq, Inhabited
+
+/-- The kind of a value: which base schema accepts it (`s` String, `i` Int, `l` Slice[int], `o` Object). -/
+def UV.kind : UV → String
+  | .str _ => "s" | .int _ => "i" | .ints _ => "l" | .obj _ _ => "o" | .nil => "n"
 
 inductive UPred where
   | s (p : Str.SPred)                      -- the string checks (on `str` values)
@@ -68,6 +73,7 @@ def customPred (k : Nat) : UV → Bool
     | 3 => true
     | 4 => a ≥ 3
     | _ => b == 1
+  | .nil => false
 
 /-- How many issues the fixed `Check` function number `k` pushes on a value. -/
 def issueCount (k : Nat) (v : UV) : Nat :=
@@ -98,12 +104,14 @@ def customOw (k : Nat) : UV → UV
     | 1 => .obj b a
     | 2 => .obj a (b * 2)
     | _ => .obj (a - 3) b
+  | .nil => .nil
 
 /-- Decimal rendering of an integer as bytes (`strconv.Itoa`). -/
 def itoa (i : Int) : Bytes := (toString i).toUTF8.toList.map (·.toNat)
 
 /-- The fixed family of transforms. Below 100: same type in, same type out; from 100: type-changing. -/
-def customTr (k : Nat) : UV → UV
+def customTrV (k : Nat) : UV → UV
+  | .nil => .nil
   | .str b => if k == 100 then .int b.length else if k == 103 then .ints [b.length, 1] else .str (Str.customTr k b)
   | .int i =>
     if k == 101 then .str (itoa i) else if k == 103 then .ints [i, i] else if k == 104 then .obj i 1
@@ -123,6 +131,9 @@ def customTr (k : Nat) : UV → UV
       | 0 => .obj (a + 10) b
       | 1 => .obj a (b + 1)
       | _ => .obj b a
+
+/-- Transform 105 returns nil whatever it is given (a Transform callback may return `nil, nil`). -/
+def customTr (k : Nat) (v : UV) : UV := if k == 105 then .nil else customTrV k v
 
 def holds : UPred → UV → Bool
   | .s p, .str b => Str.holds p b
